@@ -366,7 +366,8 @@ Proof.
         -- rewrite nth_error_upd_neq in Hb by exact Hne.
            eapply hw_ok_mono; [exact Hle|]. eapply o_chan; eauto.
     + intros q ql sb0 e Hq Hs Hin. rewrite Ep in Hq. eapply hw_ok_mono; [exact Hle|]. eapply o_psub; eauto.
-    + intros w0 wk0 sb0 e Hw0 Hs Ha Hin. rewrite (Hact _ _ eq_refl) in Ha.
+    + intros w0 wk0 sb0 e Hw0 Hs Ha Hin. unfold active_at in Ha; sproj; rewrite ?Ep in Ha;
+        change (active_at s (sresp sb0) = true) in Ha.
       upd_cases Hw0.
       * cbn in Hs. destruct o as [sb'|[|]]; try discriminate; inversion Hs; subst.
         -- destruct (Eo sb0 eq_refl) as (X & Y & Z). rewrite Y in Ha.
@@ -387,7 +388,8 @@ Proof.
     + intros c0 cb Hcb. upd_cases Hcb; [|auto]. apply (A _ _ H1).
     + intros q ql b e Hq Ha Hb Hin. eapply hw_ok_mono; eauto.
     + intros q ql sb0 e Hq Hs Hin. eapply hw_ok_mono; eauto.
-    + intros w0 wk0 sb0 e Hw0 Hs Ha Hin. rewrite (Hact _ _ eq_refl) in Ha.
+    + intros w0 wk0 sb0 e Hw0 Hs Ha Hin. unfold active_at in Ha; sproj;
+        change (active_at s (sresp sb0) = true) in Ha.
       upd_cases Hw0; [discriminate|]. eapply hw_ok_mono; eauto.
   - eapply (Hgen f' None (chans s)); eauto; try reflexivity; discriminate.
   - eapply (Hgen f' (Some (sub0 id r)) (chans s)); eauto; try reflexivity.
@@ -405,7 +407,8 @@ Proof.
       apply nth_error_lt in Hc0. lia.
     + intros q ql b e Hq Ha Hb Hin. eapply hw_ok_mono; eauto.
     + intros q ql sb0 e Hq Hs Hin. eapply hw_ok_mono; eauto.
-    + intros w0 wk0 sb0 e Hw0 Hs Ha Hin. rewrite (Hact _ _ eq_refl) in Ha.
+    + intros w0 wk0 sb0 e Hw0 Hs Ha Hin. unfold active_at in Ha; sproj;
+        change (active_at s (sresp sb0) = true) in Ha.
       upd_cases Hw0; [discriminate|]. eapply hw_ok_mono; eauto.
   - eapply (Hgen (WOff id todo res OffResp) None (chans s)); eauto; try reflexivity; discriminate.
   - eapply (Hgen (WHb id sg HbWait) None (chans s)); eauto; try reflexivity; discriminate.
@@ -414,14 +417,15 @@ Qed.
 Lemma Inv4_step s t s' : Inv1 s -> Inv2 s -> Inv4 s -> step_rel s t s' -> Inv4 s'.
 Proof.
   intros HJ HD HI H. inversion H; subst.
-  - apply (Inv4_transfer s _ HI); sproj; auto.
+  - apply (Inv4_transfer s _ HI); sproj; try reflexivity.
     + intros q ql' b Hq Ha Hb. eauto.
+    + intros q ql sb Hq Hs. left. eauto.
     + intros w wk sb Hw Hs Ha. left. snoc_cases Hw; [eauto|discriminate].
-  - apply (Inv4_transfer s _ HI); sproj; auto.
+  - apply (Inv4_transfer s _ HI); sproj; try reflexivity.
     + intros q ql' b Hq Ha Hb. snoc_cases Hq.
       * snoc_cases Hb; [eauto|discriminate].
       * snoc_cases Hb; [|discriminate]. pose proof (i_len s HJ). lia.
-    + intros q ql sb Hq Hs. snoc_cases Hq; [eauto|discriminate].
+    + intros q ql sb Hq Hs. left. snoc_cases Hq; [eauto|discriminate].
     + intros w wk sb Hw Hs Ha. left. exists wk. repeat split; auto.
       unfold active_at in *. sproj.
       destruct (nth_error (polls s ++ [{| pid := id; ppc := LPopOld |}]) (sresp sb)) as [pl|] eqn:E; [|discriminate].
